@@ -160,6 +160,17 @@ def extra(tier, rng):
                         many = [[[['Package', 'foo', [], ' '], ['Maintainer', 'x' * (r - 1), [' ' + 'y' * 98] * (n - 1) + [' ' + 'y' * 98 + ch + ' tail'], ' ']], ['']],
                                 [[['Source', 'bar ' + ch, [], ' ']], []]]
                         yield [many, True, render(many, True)]
+            # a paragraph separator (one empty line, then any white-space-only lines) lying across offset B: a reader that
+            # works on blocks of B characters must not see two separators, or none
+            head = 'Package: foo\nMaintainer: '
+            for sep in ([], [''], ['', ''], [' \t', ''], ['', '', '', '']):
+                for delta in range(-4, 2):
+                    k = B + delta - len(head)
+                    if k < 1:
+                        continue
+                    doc = [[[['Package', 'foo', [], ' '], ['Maintainer', 'x' * k, [], ' ']], sep],
+                           [[['Source', 'bar', [], ' '], ['Version', '1.0', [' more'], ' ']], ['']], [[['Package', 'baz', [], ' ']], []]]
+                    yield [doc, True, render(doc, True)]
     try:
         small = (case(rng) for _ in range(200 if tier == 'quick' else 3000))
         for paras, fin, text in itertools.chain(big_cases(), small):
